@@ -1,29 +1,157 @@
 import Ccd
 open Ccd
+/-!
+Driver of the cache model (C20): reads the request lines of `harness/inpkg/cache/cache_harness_test.go`
+and prints one answer line per request.
+
+    NEW age count fn            SET k v now ! f…      GET k now        DEL k ! f…       DELALL ! f…
+    AGE now ! f…                COUNT now ! f…        LIST             EMPTY            MINCOUNT lo hi
+    DBEGIN t k                  DEND t r              ABEGIN t k ! f…  AEND t r
+
+`! f…` lists the keys whose cleanup reports an error during this request; `r` is 0 (callback returns nil) or
+1 (returns an error).  `DBEGIN`/`DEND` are the two critical sections of `Delete(k)` run by thread `t`,
+`ABEGIN`/`AEND` a `DeleteAll` that is stopped inside the callback of key `k` (the cleanups of all other keys
+must be scripted to fail, which makes the state independent of Go's map order).
+
+With the argument `asis` the driver runs the model of the code before the F12/F27 repairs.
+-/
 
 def insertN (x : Nat) : List Nat → List Nat
   | [] => [x]
   | y :: ys => if x ≤ y then x :: y :: ys else y :: insertN x ys
 def sortN (l : List Nat) : List Nat := l.foldl (fun a x => insertN x a) []
 
-def fmt (c : Cache) (calls : List (Nat × Nat)) (err : Bool) (extra : String := "") : String :=
-  let keys := sortN (c.entries.map (·.key))
-  let cs := sortN (calls.map fun (k, v) => k * 1000 + v)
-  let sp := fun (l : List Nat) => "[" ++ " ".intercalate (l.map toString) ++ "]"
-  s!"keys={sp keys} calls={sp cs} err={if err then 1 else 0}{extra}"
+def insertBy {α} (key : α → Nat) (x : α) : List α → List α
+  | [] => [x]
+  | y :: ys => if key x ≤ key y then x :: y :: ys else y :: insertBy key x ys
+def sortBy {α} (key : α → Nat) (l : List α) : List α := l.foldl (fun a x => insertBy key x a) []
 
-partial def loop (h : IO.FS.Stream) (out : IO.FS.Stream) (c : Cache) : IO Unit := do
+def sp (l : List String) : String := "[" ++ " ".intercalate l ++ "]"
+def fmtEnts (c : Cache) : String :=
+  sp ((sortBy (·.key) c.entries).map fun e => s!"{e.key}:{e.val}:{e.used}")
+def fmtCall (x : Call) : String := s!"{x.key}:{x.val}:{if x.ok then 0 else 1}"
+def fmtCalls (cs : List Call) (sorted : Bool) : String :=
+  sp ((if sorted then sortBy (fun (x : Call) => x.key * 1000003 + x.val) cs else cs).map fmtCall)
+def fmtPend (s : SCache) : String :=
+  sp ((sortBy (·.tid) s.pend).map fun p => s!"{p.tid}:{p.key}:{p.val}")
+
+structure Thread where
+  tid : Nat
+  err : Bool := false
+  calls : List Call := []
+
+structure St where
+  asis : Bool
+  s : SCache
+  clock : Nat := 0
+  threads : List Thread := []     -- DeleteAll threads stopped in a callback
+
+def St.fix (st : St) : Bool := !st.asis
+
+def answer (st : St) (calls : List Call) (sorted : Bool) (err : Bool) (extra : String := "") : String :=
+  s!"ents={fmtEnts st.s.c} calls={fmtCalls calls sorted} err={if err then 1 else 0} pend={fmtPend st.s}{extra}"
+
+/-- split the tokens at "!" -/
+def splitBang (t : List String) : List String × List Nat :=
+  let a := t.takeWhile (· ≠ "!")
+  let b := (t.dropWhile (· ≠ "!")).drop 1
+  (a, b.map String.toNat!)
+
+def newCalls (old new : SCache) : List Call := new.log.drop old.log.length
+
+def atomicOp (st : St) (op : Op) : St × List Call :=
+  let s' := sstep st.fix st.s (.atomic op)
+  ({ st with s := s' }, newCalls st.s s')
+
+def sumMin (asis : Bool) (lo hi : Nat) : Nat := Id.run do
+  let mut acc := 0
+  for c in [lo:hi+1] do
+    acc := acc + (if asis then mkCacheF12 0 c false else mkCache 0 c false).minCount
+  return acc
+
+def stepLine (st : St) (line : String) : St × String :=
+  let toks := (line.trimAscii.toString.splitOn " ").filter (· ≠ "")
+  let (t, fails) := splitBang toks
+  let fl : Nat → Bool := fun k => fails.contains k
+  let n := fun (s : String) => s.toNat!
+  let timed (now : Nat) (f : Unit → St × String) : St × String :=
+    if now ≤ st.clock then (st, "bad-time") else
+      let (st', a) := f ()
+      ({ st' with clock := now }, a)
+  match t with
+  | ["NEW", age, count, fn] =>
+    let c := if st.asis then mkCacheF12 (n age) (n count) (fn == "1") else mkCache (n age) (n count) (fn == "1")
+    ({ asis := st.asis, s := { c := c } }, "new")
+  | ["SET", k, v, now] => timed (n now) fun _ =>
+    let (st', cs) := atomicOp st (.set (n k) (n v) (n now) fl); (st', answer st' cs false false)
+  | ["GET", k, now] => timed (n now) fun _ =>
+    let r := (get st.s.c (n k) (n now)).2
+    let (st', cs) := atomicOp st (.get (n k) (n now))
+    (st', answer st' cs false false (match r with | some v => s!" got={v}" | none => " got=none"))
+  | ["DEL", k] =>
+    let e := (delete st.s.c (n k) fl).2.2
+    let (st', cs) := atomicOp st (.delete (n k) fl); (st', answer st' cs false e)
+  | ["DELALL"] =>
+    let e := (deleteAll st.s.c fl).2.2
+    let (st', cs) := atomicOp st (.deleteAll fl); (st', answer st' cs true e)
+  | ["AGE", now] => timed (n now) fun _ =>
+    let (st', cs) := atomicOp st (.pruneAge (n now) fl); (st', answer st' cs true false)
+  | ["COUNT", now] => timed (n now) fun _ =>
+    let (st', cs) := atomicOp st (.pruneCount (n now) fl); (st', answer st' cs false false)
+  | ["LIST"] => (st, "list=" ++ sp ((sortN (st.s.c.entries.map (·.key))).map toString))
+  | ["EMPTY"] => (st, s!"empty={if st.s.c.entries.isEmpty then 1 else 0}")
+  | ["MINCOUNT", lo, hi] => (st, s!"sum={sumMin st.asis (n lo) (n hi)}")
+  | ["DBEGIN", tid, k] =>
+    if (st.s.pending (n tid)).isSome then (st, "busy") else
+    let s' := sstep st.fix st.s (.begin (n tid) (n k))
+    let st' := { st with s := s' }
+    match s'.pending (n tid) with
+    | some p => (st', answer st' [] false false s!" cb={p.key}:{p.val}")
+    | none => (st', answer st' [] false false " done")
+  | ["DEND", tid, r] =>
+    match st.s.pending (n tid) with
+    | none => (st, "idle")
+    | some _ =>
+      if st.threads.any (·.tid = n tid) then (st, "bad-op") else
+      let s' := sstep st.fix st.s (.finish (n tid) (r == "0"))
+      let st' := { st with s := s' }
+      (st', answer st' (newCalls st.s s') false (r != "0") " done")
+  | ["ABEGIN", tid, k0] =>
+    if (st.s.pending (n tid)).isSome then (st, "busy") else
+    -- every other key must be scripted to fail (state independent of the iteration order)
+    if st.s.c.hasFn && st.s.c.entries.any (fun e => e.key ≠ n k0 && !fl e.key) then (st, "bad-op") else
+    if !st.s.c.hasFn then
+      let e := (deleteAll st.s.c fl).2.2
+      let (st', cs) := atomicOp st (.deleteAll fl); (st', answer st' cs true e " done")
+    else
+      -- the iterations on the other keys: begin/finish pairs of thread tid
+      let others := st.s.c.entries.filter (·.key ≠ n k0)
+      let s1 := others.foldl (fun s e => sstep st.fix (sstep st.fix s (.begin (n tid) e.key)) (.finish (n tid) false)) st.s
+      let cs := newCalls st.s s1
+      let s2 := sstep st.fix s1 (.begin (n tid) (n k0))
+      match s2.pending (n tid) with
+      | some p =>
+        let st' := { st with s := s2, threads := ⟨n tid, !cs.isEmpty, cs⟩ :: st.threads }
+        (st', answer st' [] true false s!" cb={p.key}:{p.val}")
+      | none =>
+        let st' := { st with s := s2 }
+        (st', answer st' cs true (!cs.isEmpty) " done")
+  | ["AEND", tid, r] =>
+    match st.threads.find? (·.tid = n tid) with
+    | none => (st, "idle")
+    | some th =>
+      let s' := sstep st.fix st.s (.finish (n tid) (r == "0"))
+      let st' := { st with s := s', threads := st.threads.filter (·.tid ≠ n tid) }
+      (st', answer st' (th.calls ++ newCalls st.s s') true (th.err || r != "0") " done")
+  | _ => (st, "bad-op")
+
+partial def loop (h : IO.FS.Stream) (out : IO.FS.Stream) (st : St) : IO Unit := do
   let line ← h.getLine
   if line.isEmpty then return ()
-  let n := fun (s : String) => s.toNat!
-  match (line.trimAscii.toString.splitOn " ").filter (· ≠ "") with
-  | ["NEW", age, count, fn] => let c := mkCache (n age) (n count) (fn == "1"); out.putStrLn "new"; loop h out c
-  | ["SET", k, v, now] => let (c', cs, e) := set c (n k) (n v) (n now); out.putStrLn (fmt c' cs e); loop h out c'
-  | ["GET", k, now] => let (c', r) := get c (n k) (n now); out.putStrLn (fmt c' [] false s!" got={r}"); loop h out c'
-  | ["DEL", k] => let (c', cs, e) := delete c (n k); out.putStrLn (fmt c' cs e); loop h out c'
-  | ["DELALL"] => let (c', cs, e) := deleteAll c; out.putStrLn (fmt c' cs e); loop h out c'
-  | ["AGE", now] => let (c', cs, e) := pruneAge c (n now); out.putStrLn (fmt c' cs e); loop h out c'
-  | ["COUNT", now] => let (c', cs, e) := pruneCount c (n now); out.putStrLn (fmt c' cs e); loop h out c'
-  | _ => out.putStrLn "bad-op"; loop h out c
+  let (st', a) := stepLine st line
+  out.putStrLn a
+  loop h out st'
 
-def main : IO Unit := do loop (← IO.getStdin) (← IO.getStdout) (mkCache 0 0 false)
+def main (args : List String) : IO Unit := do
+  let asis := args.contains "asis"
+  loop (← IO.getStdin) (← IO.getStdout) { asis := asis, s := sinit 0 0 false }
